@@ -265,6 +265,7 @@ func TestC02(t *testing.T) {
 	}
 	// ---------- sessions as a running router acquires them.
 	learnedSessions(t, rep, env, &idx, &evals, &nontrivial)
+	runRoundTripSched(t, rep, env)
 	rep.Add(evals, nontrivial, 0, 0)
 	if err := rep.Finish(env); err != nil {
 		t.Fatal(err)
